@@ -215,6 +215,12 @@ func (con *Connection) DecryptedRead(b []byte) (int, error) {
 			_, err = con.buffered.Peek(size)
 		}
 		if err != nil {
+			if err == io.EOF && con.buffered.Buffered() > 0 {
+				// The stream ends inside a packet. That is not the end of what the peer
+				// sent: a reader must be able to tell it from a closed connection.
+				err = io.ErrUnexpectedEOF
+			}
+
 			if neterr, ok := err.(net.Error); ok && neterr.Timeout() {
 				// Ignore timeout error #77
 			} else {
